@@ -95,7 +95,21 @@ def derive(seed, prop, run, salt=""):
 
 
 def run_rng(seed, prop, run):
-    return random.Random(derive(seed, prop, run))
+    r = random.Random(derive(seed, prop, run))
+    r.run_index = run
+    return r
+
+
+def rare(rng, p, phase=37):
+    """A rare, expensive kind of run (probability p).  Stratified over the run index when the generator
+    knows it - one run in round(1/p), starting early - so that a sweep cut short by a loaded machine
+    still contains its share of them; otherwise drawn.  Always consumes one draw."""
+    c = rng.random()
+    idx = getattr(rng, "run_index", None)
+    if idx is None:
+        return c < p
+    period = max(1, round(1 / p))
+    return idx % period == phase % period
 
 
 # --------------------------------------------------------------------------
